@@ -301,3 +301,4 @@ MUTANTS = [
 RENAME_FUNCS = [(F, 'crop_samples'), (F, 'crop_wav_data'), (F, 'repeat_samples_to_duration'), (F, 'make_stereo')]
 
 EXPLANATION += (' Location-independent additions: WAV/mono-untouched (channels folded only after the rank is established), SCALE/divide-not-reciprocal, STEREO/slots for both layout idioms.')
+EXPLANATION += (' Round 7: ' + 'STEREO/zero-padding (no cyclic fill with np.resize / np.tile).')
